@@ -312,4 +312,69 @@ private:
   }
 };
 
+
+// ---- reference value-class judgment (value / props), transcribed from upstream's testValueAuditor expectations:
+// a "property" (power set, Z, anything built from them by product / union / ...) may be tested for membership or
+// inclusion but must not be enumerated, measured, projected, compared for equality or stored in a tuple / enumeration.
+struct VR { bool ok = true; VClass cls = VClass::value; std::string rule; static VR Ok(VClass c) { VR r; r.cls = c; return r; } static VR Rej(std::string rule) { VR r; r.ok = false; r.rule = std::move(rule); return r; } };
+
+class ValueJudge {
+public:
+  const Gamma& G;
+  std::set<std::string> localProps;
+  explicit ValueJudge(const Gamma& g) : G(g) {}
+  VR check(const EP& e) { return vc(*e); }
+private:
+  VR mustBeValue(const Expr& e) { VR r = vc(e); if (!r.ok) return r; if (r.cls != VClass::value) return VR::Rej("property-used-as-value"); return r; }
+  VR allValues(const Expr& e) { for (auto& k : e.kids) { VR r = mustBeValue(*k); if (!r.ok) return r; } return VR::Ok(VClass::value); }
+  VR visitAll(const Expr& e, VClass result) { for (auto& k : e.kids) { VR r = vc(*k); if (!r.ok) return r; } return VR::Ok(result); }
+  VClass globalClass(const std::string& n) const { if (const Global* g = G.find(n)) return g->props ? VClass::props : VClass::value; if (G.func(n)) return VClass::value; return VClass::invalid; }
+  VR vc(const Expr& e) {
+    switch (e.id) {
+      case TID::PUNC_STRUCT: { VR r = vc(*e.kids[1]); if (!r.ok) return r; return VR::Ok(VClass::value); }
+      case TID::PUNC_DEFINE: if (e.kids.size() == 1) return VR::Ok(VClass::value); return vc(*e.kids[1]);
+      case TID::NT_FUNC_DEFINITION: { for (auto& a : e.kids[0]->kids) { VR r = vc(*a->kids[1]); if (!r.ok) return r; } return vc(*e.kids[1]); }
+      case TID::NT_FUNC_CALL: {
+        const std::string& fn = e.kids[0]->name;
+        if (globalClass(fn) == VClass::invalid) return VR::Rej("global-no-value");
+        bool allValue = true; std::vector<VClass> args;
+        for (size_t i = 1; i < e.kids.size(); ++i) { VR r = vc(*e.kids[i]); if (!r.ok) return r; args.push_back(r.cls); allValue = allValue && r.cls == VClass::value; }
+        if (allValue) return VR::Ok(globalClass(fn));
+        const FuncDef* f = G.func(fn); if (!f) return VR::Rej("global-missing-ast");
+        ValueJudge inner(G);
+        for (size_t i = 0; i < args.size() && i < f->args.size(); ++i) if (args[i] == VClass::props) inner.localProps.insert(f->args[i].first);
+        VR r = inner.vc(*f->body); if (!r.ok) return VR::Rej("function-not-interpretable-for-arguments");
+        return r;
+      }
+      case TID::ID_GLOBAL: case TID::ID_FUNCTION: case TID::ID_PREDICATE: { const VClass c = globalClass(e.name); if (c == VClass::invalid) return VR::Rej("global-no-value"); return VR::Ok(c); }
+      case TID::ID_RADICAL: return VR::Ok(VClass::value);
+      case TID::ID_LOCAL: return VR::Ok(localProps.count(e.name) ? VClass::props : VClass::value);
+      case TID::LIT_INTEGER: case TID::LIT_EMPTYSET: return VR::Ok(VClass::value);
+      case TID::LIT_INTSET: return VR::Ok(VClass::props);
+      case TID::NT_TUPLE_DECL: case TID::NT_ENUM_DECL: return VR::Ok(VClass::value);
+      case TID::PLUS: case TID::MINUS: case TID::MULTIPLY: case TID::NOT: case TID::AND: case TID::OR: case TID::IMPLICATION: case TID::EQUIVALENT:
+      case TID::GREATER: case TID::LESSER: case TID::GREATER_OR_EQ: case TID::LESSER_OR_EQ: return visitAll(e, VClass::value);
+      case TID::CARD: case TID::BOOL: case TID::DEBOOL: case TID::REDUCE: case TID::BIGPR: case TID::SMALLPR: return mustBeValue(*e.kids[0]);
+      case TID::FORALL: case TID::EXISTS: { VR d = mustBeValue(*e.kids[1]); if (!d.ok) return d; return vc(*e.kids[2]); }
+      case TID::EQUAL: case TID::NOTEQUAL: case TID::NT_TUPLE: case TID::NT_ENUMERATION: return allValues(e);
+      case TID::NT_RECURSIVE_FULL: case TID::NT_RECURSIVE_SHORT: { for (size_t i = 1; i < e.kids.size(); ++i) { VR r = mustBeValue(*e.kids[i]); if (!r.ok) return r; } return VR::Ok(VClass::value); }
+      case TID::IN: case TID::NOTIN: case TID::SUBSET_OR_EQ: { VR s = vc(*e.kids[1]); if (!s.ok) return s; return mustBeValue(*e.kids[0]); }
+      case TID::SUBSET: case TID::NOTSUBSET: return allValues(e);
+      case TID::NT_DECLARATIVE_EXPR: { VR p = vc(*e.kids[2]); if (!p.ok) return p; return vc(*e.kids[1]); }
+      case TID::NT_IMPERATIVE_EXPR: { for (size_t i = 1; i < e.kids.size(); ++i) { VR r = vc(*e.kids[i]); if (!r.ok) return r; } return mustBeValue(*e.kids[0]); }
+      case TID::ITERATE: case TID::ASSIGN: return mustBeValue(*e.kids[1]);
+      case TID::DECART: { VClass c = VClass::value; for (auto& k : e.kids) { VR r = vc(*k); if (!r.ok) return r; if (r.cls == VClass::props) c = VClass::props; } return VR::Ok(c); }
+      case TID::BOOLEAN: { VR r = vc(*e.kids[0]); if (!r.ok) return r; return VR::Ok(VClass::props); }
+      case TID::FILTER: { VR last; for (auto& k : e.kids) { last = vc(*k); if (!last.ok) return last; } return last; }
+      case TID::UNION: case TID::INTERSECTION: case TID::SET_MINUS: case TID::SYMMINUS: {
+        VR a = vc(*e.kids[0]); if (!a.ok) return a; VR b = vc(*e.kids[1]); if (!b.ok) return b;
+        const bool v1 = a.cls == VClass::value, v2 = b.cls == VClass::value;
+        const bool value = e.id == TID::INTERSECTION ? (v1 || v2) : e.id == TID::SET_MINUS ? v1 : (v1 && v2);
+        return VR::Ok(value ? VClass::value : VClass::props);
+      }
+      default: return VR::Rej(std::string("node:") + kindName(e.id));
+    }
+  }
+};
+
 }  // namespace rs
